@@ -95,15 +95,20 @@ def build(flavour, verbose=False):
             sys.stderr.write(r.stderr)
             raise SystemExit(f"BUILD-FAILED flavour={flavour}: link")
         os.replace(exe + ".tmp", exe)
-    # drop stale cache entries of this flavour
+    # drop stale cache entries of this flavour (older than an hour: a check still running may be using a previous executable)
+    import time
+    old = time.time() - 3600
     for f in glob.glob(os.path.join(objdir, "*.o")):
         if f not in used:
-            try: os.remove(f)
+            try:
+                if os.path.getmtime(f) < old: os.remove(f)
             except OSError: pass
     for f in glob.glob(os.path.join(exedir, "simcdns-*")):
         if f != exe:
-            try: os.remove(f)
+            try:
+                if os.path.getmtime(f) < old: os.remove(f)
             except OSError: pass
+    os.utime(exe, None)
     return exe
 
 if __name__ == "__main__":
